@@ -452,6 +452,11 @@ def np_full(eng, args, kwargs):
 
 
 def np_stack(eng, args, kwargs):
+    seq0 = args[0].items if isinstance(args[0], PList) else list(args[0])
+    if seq0 and all(isinstance(x, SArr) for x in seq0):
+        from . import npmodels
+
+        return npmodels.stack_sarr(eng, seq0, kwargs.get("axis", args[1] if len(args) > 1 else 0))
     arrs = [_as_narr(eng, x) for x in (args[0].items if isinstance(args[0], PList) else args[0])]
     axis = kwargs.get("axis", args[1] if len(args) > 1 else 0)
     off, ixs, items = 0, [], []
